@@ -14,6 +14,7 @@ import HaqqModel.Driver.C07
 import HaqqModel.Driver.C08
 import HaqqModel.Driver.C05
 import HaqqModel.Driver.C04
+import HaqqModel.Driver.C03
 import HaqqModel.Driver.C10
 
 open Haqq.Driver
@@ -41,6 +42,7 @@ def stepLine (st : All) (line : String) : All × String :=
   | "C05" :: rest => let (s, o) := C05.step st.c05 rest; ({ st with c05 := s }, o)
   | "C02" :: rest => let (s, o) := C05.step st.c05 rest; ({ st with c05 := s }, o)
   | "C04" :: rest => (st, C04.step rest)
+  | "C03" :: rest => (st, C03.step rest)
   | "C10" :: rest => let (s, o) := C10.step st.c10 rest; ({ st with c10 := s }, o)
   | "C13" :: rest => let (s, o) := C13.step st.c13 rest; ({ st with c13 := s }, o)
   | _ => (st, "bad-op")
